@@ -225,7 +225,7 @@ def obligations(tier):
                           bounds="%s: A=%s pre-empted at window k<=%d by B=%s (runs to completion)" % (c, QUERIES[PAIRS[pi][0]], MAXK, QUERIES[PAIRS[pi][1]])))
     if True:
         for c in (["memory"] if q else ["memory", "storecache", "filecache"]):
-            for pi, third in ([(0, 0), (1, 0)] if q else [(0, 0), (1, 0), (0, 1), (4, 0), (9, 6), (2, 5)]):
+            for pi, third in ([(0, 0), (1, 0), (0, 1)] if q else [(0, 0), (1, 0), (0, 1), (4, 0), (9, 6), (2, 5)]):
                 obs.append(Ob("ob_nested", dict(cache=c, pair=pi, depth=2, third=third), timeout=250 if q else 3000, per_path=60,
                               bounds="%s: A=%s pre-empted at k1 by B=%s, itself pre-empted at k2 by C=%s (k1,k2<=%d)" % (
                                   c, QUERIES[PAIRS[pi][0]], QUERIES[PAIRS[pi][1]], QUERIES[third], MAXK)))
